@@ -14,7 +14,7 @@ const ATOMS_T = ATOMS_Q.concat(['this.q', '(c ? a : b)', '(a, b)', '[a, b]', '`t
 
 // ---- G2 operation schemas ------------------------------------------------------------------------
 // kind: used by drivers to pick representative subsets. slots: which holes exist.
-function S (kind, tpl, extra) { return Object.assign({ kind, tpl, slots: ['X', 'Y', 'Z'].filter((s) => tpl.includes('@' + s + '@')) }, extra || {}) }
+function S (kind, tpl, extra) { return Object.assign({ kind, tpl, slots: ['X', 'Y', 'Z', 'S'].filter((s) => tpl.includes('@' + s + '@')) }, extra || {}) }
 const SCHEMAS = [
   S('plus', '@X@ + @Y@'),
   S('plus', '@X@ + @Y@ + @Z@'),
@@ -32,6 +32,9 @@ const SCHEMAS = [
   S('assign', 'g().p += @Y@'),
   S('assign', 'arr[i++] += @Y@'),
   S('assign', 'o[f()] += @Y@'),
+  S('assign', 'g()[f()] += @Y@'),
+  S('assign', 'o.q[i++] += @Y@'),
+  S('assign', 'g(1).q[h(k)] += @Y@'),
   S('ctl', 'x -= @Y@'),
   S('plus', 'x = x + @Y@'),
   S('tpl', '`${@X@}`'),
@@ -52,6 +55,12 @@ const SCHEMAS = [
   S('method', 'a.toUpperCase(@X@)'),
   S('method', 'a.concat(...arr)'),
   S('method', 'a.concat(@X@, ...arr, @Y@)'),
+  S('method', 'a.concat(...@S@)'),
+  S('method', 'a.concat(@X@, ...@S@)'),
+  S('proto', 'X.prototype.concat.call(a, ...@S@)'),
+  S('proto', 'X.prototype.concat.apply(a, [...@S@, @X@])'),
+  S('proto', 'X.prototype.concat.call(...@S@)'),
+  S('bare', 'aloneMethod(...@S@)'),
   S('method', 'o.q.trim()'),
   S('method', 'o.q.concat(@X@)'),
   S('method', 'o[k].concat(@X@)'),
@@ -199,15 +208,19 @@ const SCOPES = {
   hashbang: (body) => `#!/usr/bin/env node\nfunction main(E) { ${PRE}  ${body}\n}`
 }
 
+// spread sources (slot S): every expression kind that may follow `...`
+const SPREADS = ['arr', 'arr || []', 'o.arr ?? arr', 'c ? arr : []', '[a, f()]', 'h(arr)', 'arr.slice(0)', 'E.iter(arr)', 'a']
+
 function fill (tpl, pick) {
-  return tpl.replace(/@([XYZ])@/g, (_, s) => pick[s] === undefined ? 'a' : pick[s])
+  return tpl.replace(/@([XYZS])@/g, (_, s) => pick[s] === undefined ? (s === 'S' ? 'arr' : 'a') : pick[s])
 }
 
 function render (leaf) {
+  if (leaf.code !== undefined) return leaf.code
   const op = fill(leaf.op, leaf)
   const ex = leaf.exprctx.replace('@@', () => op)
   const body = STMTCTX[leaf.stmtctx].replace('@E@', () => ex)
   return SCOPES[leaf.scope](body)
 }
 
-module.exports = { ATOMS_Q, ATOMS_T, SCHEMAS, EXPRCTX, EXPRCTX_ASYNC, EXPRCTX_GEN, STMTCTX, STMT_SLOPPY_ONLY, SCOPES, PRE, fill, render }
+module.exports = { SPREADS, ATOMS_Q, ATOMS_T, SCHEMAS, EXPRCTX, EXPRCTX_ASYNC, EXPRCTX_GEN, STMTCTX, STMT_SLOPPY_ONLY, SCOPES, PRE, fill, render }
